@@ -124,7 +124,9 @@ pub open spec fn at_head<E>(m: Mon<E>) -> bool {
     !m.bad && (m.ph is Head || m.ph is CM || m.ph is CMI || m.ph matches Ph::FiredI(Ok(_)))
 }
 pub open spec fn loop_inv<T: Actor>(actor: T, idle_enabled: bool, killed: bool) -> bool {
-    at_head(actor.mon()) && !killed && (idle_enabled ==> !actor.mon().idle_off)
+    // idle_enabled is exactly "on_run has not returned Ok(false) yet": it is never cleared on Ok(true) (C08: on_run is run
+    // again when the actor is next idle) and always cleared on Ok(false)
+    at_head(actor.mon()) && !killed && (idle_enabled == !actor.mon().idle_off)
         && (actor.mon().ph is CM ==> !idle_enabled)
 }
 pub open spec fn sel_post3<T: Actor>(actor: T,
